@@ -83,47 +83,98 @@ Section DirectiveSet.
     destruct (cmp d y); simpl; auto.
   Qed.
 
-  Lemma ds_add_max_ge : forall s d,
-    frank (ds_max s) <= frank (ds_max (ds_add cmp lvl s d)) /\ frank (lvl d) <= frank (ds_max (ds_add cmp lvl s d)).
+  (** the most verbose level of a list of directives, as a number *)
+  Definition lmax (l : list A) : N := fold_right (fun d a => N.max (frank (lvl d)) a) 0 l.
+
+  Lemma levels_max_fold : forall l acc,
+    frank (fold_left (fun acc d => lf_max acc (lvl d)) l acc) = N.max (frank acc) (lmax l).
   Proof.
-    intros s d. unfold ds_add; simpl. destruct (N.ltb_spec (frank (ds_max s)) (frank (lvl d))); lia.
+    induction l as [|x r IH]; intros acc; simpl; [lia|]. rewrite IH, frank_lf_max. lia.
   Qed.
 
-  Lemma ds_add_bounded : forall s d, ds_bounded s -> ds_bounded (ds_add cmp lvl s d).
+  Lemma levels_max_frank : forall l, frank (ds_levels_max lvl l) = lmax l.
+  Proof. intros l. unfold ds_levels_max. rewrite levels_max_fold. simpl. lia. Qed.
+
+  Lemma lmax_in : forall l d, In d l -> frank (lvl d) <= lmax l.
   Proof.
-    intros s d Hs x Hx. destruct (ds_add_max_ge s d) as [H1 H2].
-    unfold ds_add in Hx; simpl in Hx. apply ds_insert_in in Hx. destruct Hx as [-> | Hx].
-    - exact H2.
-    - specialize (Hs x Hx). lia.
+    induction l as [|x r IH]; intros d H; [destruct H|]. simpl. destruct H as [->|H]; [lia|].
+    specialize (IH d H). lia.
   Qed.
 
-  Lemma fold_add_bounded : forall ds s, ds_bounded s -> ds_bounded (fold_left (ds_add cmp lvl) ds s).
+  Lemma lmax_attained : forall l, l <> [] -> exists d, In d l /\ frank (lvl d) = lmax l.
   Proof.
-    induction ds as [|d r IH]; simpl; intros s Hs; auto. apply IH. apply ds_add_bounded. exact Hs.
+    induction l as [|x r IH]; intros Hne; [congruence|]. simpl.
+    destruct r as [|y t].
+    - exists x. split; [left; reflexivity | simpl; lia].
+    - destruct IH as [d [Hin Hd]]; [discriminate|].
+      destruct (N.le_ge_cases (frank (lvl x)) (lmax (y :: t))).
+      + exists d. split; [right; exact Hin | lia].
+      + exists x. split; [left; reflexivity | lia].
   Qed.
 
-  Lemma fold_add_max_ge : forall ds s, frank (ds_max s) <= frank (ds_max (fold_left (ds_add cmp lvl) ds s)).
+  Lemma lmax_insert_fresh : forall d l, ds_replaced cmp d l = false ->
+    lmax (ds_insert cmp d l) = N.max (frank (lvl d)) (lmax l).
   Proof.
-    induction ds as [|d r IH]; simpl; intros s; [lia|].
-    specialize (IH (ds_add cmp lvl s d)). pose proof (ds_add_max_ge s d). lia.
+    intros d l. induction l as [|x r IH]; simpl; intros H; [reflexivity|].
+    destruct (cmp d x); simpl; [discriminate H | reflexivity |]. rewrite (IH H). lia.
   Qed.
 
-  (** the headline about [DirectiveSet::add]: however the set was built (any sequence of adds, including
-      replacements of an equal directive by one with a lower level), every directive in it is at most
-      [max_level], and [max_level] never decreases *)
-  Lemma directive_max_mono : forall ds,
-    (forall d, In d (ds_dirs (ds_of cmp lvl ds)) -> frank (lvl d) <= frank (ds_max (ds_of cmp lvl ds))) /\
-    (forall d, frank (ds_max (ds_of cmp lvl ds)) <= frank (ds_max (ds_add cmp lvl (ds_of cmp lvl ds) d))) /\
-    (forall d, frank (lvl d) <= frank (ds_max (ds_add cmp lvl (ds_of cmp lvl ds) d))).
+  (** [max_level] is exactly the most verbose level in the set *)
+  Definition ds_exact (s : dset A) : Prop := frank (ds_max s) = lmax (ds_dirs s).
+
+  Lemma ds_add_exact : forall s d, ds_exact s -> ds_exact (ds_add cmp lvl s d).
   Proof.
-    intros ds. split; [|split].
-    - apply fold_add_bounded. intros d [].
-    - intros d. apply ds_add_max_ge.
-    - intros d. apply ds_add_max_ge.
+    intros s d Hs. unfold ds_exact, ds_add in *. cbn [ds_dirs ds_max].
+    destruct (ds_replaced cmp d (ds_dirs s)) eqn:E.
+    - apply levels_max_frank.
+    - rewrite (lmax_insert_fresh d _ E). destruct (N.ltb_spec (frank (ds_max s)) (frank (lvl d))); lia.
   Qed.
+
+  Lemma fold_add_exact : forall ds s, ds_exact s -> ds_exact (fold_left (ds_add cmp lvl) ds s).
+  Proof.
+    induction ds as [|d r IH]; simpl; intros s Hs; auto. apply IH. apply ds_add_exact. exact Hs.
+  Qed.
+
+  Lemma ds_of_exact : forall ds, ds_exact (ds_of cmp lvl ds).
+  Proof. intros ds. apply fold_add_exact. reflexivity. Qed.
+
+  Lemma ds_exact_bounded : forall s, ds_exact s -> ds_bounded s.
+  Proof. intros s Hs d Hd. rewrite Hs. apply lmax_in. exact Hd. Qed.
 
   Lemma ds_of_bounded : forall ds, ds_bounded (ds_of cmp lvl ds).
-  Proof. intros ds. apply fold_add_bounded. intros d []. Qed.
+  Proof. intros ds. apply ds_exact_bounded. apply ds_of_exact. Qed.
+
+  (** the headline about [DirectiveSet::add]: however the set was built (any sequence of adds, including
+      replacements of an equal directive by one with a lower or a higher level), [max_level] is EXACTLY the most
+      verbose level among the directives now in the set: it bounds every one of them, it is [OFF] for the empty
+      set, and otherwise some directive in the set has it *)
+  Lemma directive_max_exact : forall ds,
+    let s := ds_of cmp lvl ds in
+    (forall d, In d (ds_dirs s) -> frank (lvl d) <= frank (ds_max s)) /\
+    (ds_dirs s = [] -> ds_max s = OFF) /\
+    (ds_dirs s <> [] -> exists d, In d (ds_dirs s) /\ lvl d = ds_max s).
+  Proof.
+    intros ds s. pose proof (ds_of_exact ds) as He. fold s in He. unfold ds_exact in He. split; [|split].
+    - apply ds_exact_bounded. exact He.
+    - intros Hn. rewrite Hn in He. simpl in He. apply frank_inj. simpl. exact He.
+    - intros Hn. destruct (lmax_attained _ Hn) as [d [Hin Hd]]. exists d. split; [exact Hin|].
+      apply frank_inj. lia.
+  Qed.
+
+  (** one more [add]: the new directive is bounded; adding a directive that replaces nothing never lowers
+      [max_level]; a replacement may lower it (that is what makes it exact) *)
+  Lemma directive_max_mono : forall ds d,
+    let s := ds_of cmp lvl ds in
+    frank (lvl d) <= frank (ds_max (ds_add cmp lvl s d)) /\
+    (ds_replaced cmp d (ds_dirs s) = false -> frank (ds_max s) <= frank (ds_max (ds_add cmp lvl s d))).
+  Proof.
+    intros ds d s. split.
+    - assert (Hb : ds_bounded (ds_add cmp lvl s d)).
+      { apply ds_exact_bounded. apply ds_add_exact. apply ds_of_exact. }
+      apply Hb. unfold ds_add. cbn [ds_dirs]. apply ds_insert_has.
+    - intros E. unfold ds_add. cbn [ds_max]. rewrite E.
+      destruct (N.ltb_spec (frank (ds_max s)) (frank (lvl d))); lia.
+  Qed.
 End DirectiveSet.
 
 Lemma statics_enabled_bound : forall ds m,
